@@ -5,7 +5,9 @@ Relations
               STR-only / mixed, VCF.gz or PGEN SNPs, HipSTR-style STR VCF.gz or PGEN, Pearson / Exact) on generated
               summary-statistic tables: ties, p in {0, 1}, p around both
               thresholds, p1 > 1, several chromosomes, permuted / renamed / extra columns, '#' header, blank line,
-              constant and missing genotype columns, duplicate variant IDs.  --clump-kb: whole and fractional
+              constant and missing genotype columns, duplicate variant IDs (about a quarter of the well-formed cases:
+              '.' placeholders, one ID on two chromosomes / at two positions / shared by a SNP and an STR row; both LD
+              modes).  --clump-kb: whole and fractional
               radii (k/1000 for integer k, radii whose size in bp is not a whole number, float64 neighbours of
               k/1000, radii whose float64 product with 1000 lies one ulp below / above an integer, 1 bp, 0, negative,
               100 Mb) with variants in LD with the index at floor(kb*1000)-1, floor, ceil, ceil+1 bp on both sides.
@@ -38,11 +40,41 @@ CLAIMED = True
 COQ_MODULES = ["PearsonQ", "Stats", "C17_Model", "C17_Check", "C17_Proofs", "C17_ProofsExact"]
 PROPERTY_MODULE = "C17_Property"
 ALLOWED_AXIOMS = []
+# Translation validation (harness/README.md): the pure-Python kernel of clumping is regenerated from the current source
+# on every run and proved equal to the hand-written model (coq/translated/TV_C17.v).
+TRANSLATION = {
+    "spec": {
+        "module": "Gen_Clump",
+        # abs(dpos) / 1000: the float64 quotient is the Section variable fdiv of the generated module
+        "float_div": True,
+        "classes": [("haptools/clump.py", "Variant", 1)],
+        # SummaryStats objects: only self.summstats is modelled (self.log is never used by the translated methods)
+        "state_classes": [("haptools/clump.py", "SummaryStats", 2, ["summstats"])],
+        # not translated: arbitrary functions of their argument values (Section variables ext_*)
+        "externals": [("haptools/clump.py", "LoadVariant"), ("haptools/clump.py", "ComputeLD")],
+        # WriteClump(indexvar, clumpvars, outf) = append (indexvar, clumpvars) to the list "$out"
+        "outputs": {"WriteClump": {"stream": "$out", "args": [0, 1]}},
+        "ignore_calls": ["log.debug"],
+        "functions": [
+            ("haptools/clump.py", "SummaryStats.GetNextIndexVariant"),
+            ("haptools/clump.py", "SummaryStats.QueryWindow"),
+            ("haptools/clump.py", "SummaryStats.RemoveClump"),
+            # `indexvar = summstats.GetNextIndexVariant(clump_p1)` + `while indexvar is not None: ...` of clumpstr
+            ("haptools/clump.py", "clumpstr", {
+                "name": "_clump_loop", "while_var": "indexvar",
+                "params": ["summstats", "clump_p1", "clump_kb", "clump_r2", "gts", "LD_type", "log"],
+                "objects": {"summstats": "SummaryStats"}}),
+        ],
+    },
+    "models": ["TVM_C17"],
+    # TV_C17: the three methods and the loop; TV_C17_Str: clumpstr with the translated loop = the model's clumpstr
+    "proofs": ["TV_C17", "TV_C17_Str"],
+}
 RULE = (
     "clump: 1-3 chromosomes, 0-8 SNPs and 0-5 STRs placed either on a grid of multiples of floor/ceil(kb*1000) (+-1) or "
     "around one anchor per chromosome at +-{floor-1, floor, ceil, ceil+1} bp (mostly in LD with the anchor), kb whole / "
     "fractional / float64-boundary / tiny / large, p-values from a "
-    "pool with ties / 0 / 1 / values on both thresholds, 3-12 samples. Non-trivial = a well-formed case producing at "
+    "pool with ties / 0 / 1 / values on both thresholds, 3-12 samples, repeated IDs in ~25% of the well-formed cases. Non-trivial = a well-formed case producing at "
     "least two clumps or a clump with a member other than its index. computeld: non-trivial = at least 3 samples "
     "left after the missing-call filter and both dosage vectors non-constant. Distinct = distinct canonical JSON."
 )
@@ -55,8 +87,11 @@ TRUSTED = [
     "strings are interned to integers by the harness (sample names order-preservingly)",
 ]
 ASSUMPTIONS = [
-    "holds_clump / clumps_disjoint_ids / model_meets_checker_spec assume distinct variant IDs (the .clump file names variants by "
-    "ID); the model itself and clumps_disjoint identify a variant by its row, as the code compares Variant objects by identity",
+    "a variant is a row of a summary-statistics table (CHROM, POS), not its ID: the model removes clumped rows by load "
+    "key, as the code compares Variant objects by identity, and holds_clump resolves every printed variant to a row by "
+    "(ID, CHROM, POS) - rows that agree on the three cannot be told apart in the .clump file and the checker is stated "
+    "modulo that (C17_greedy_okb_sound: the file is the printed form of SOME greedy clumping of the rows); "
+    "clumps_disjoint_ids alone assumes distinct IDs",
     "index eligibility is p < p1 and p < 1 (DESIGN.md section 10); for p1 > 1 holds demands p < p1 of an index and p < 1 "
     "only of what may be left at the end",
     "positions differ by less than 2^53 (float(|dpos|)/1000.0 is then Python's correctly rounded int/int quotient)",
@@ -231,6 +266,10 @@ def gen_clump(rng):
             motif = str(rng.choice(["A", "AC", "GT", "T"]))
             ref_n = int(rng.integers(2, 8))
             alt_ns = sorted(set(int(x) for x in rng.integers(1, 12, size=int(rng.integers(1, 4)))) - {ref_n}) or [ref_n + 1]
+            if rng.random() < 0.04:
+                # width boundary: copy numbers around 127|128 (uint8 genotype arrays; dosage sums around 255|256)
+                ref_n = int(rng.choice([126, 127, 128]))
+                alt_ns = sorted({ref_n + int(d) for d in rng.choice([-2, -1, 1, 2], size=2)})
             r = rng.random()
             if r < 0.15:
                 calls = [[0, 0] for _ in range(m)]
@@ -319,14 +358,50 @@ def gen_clump(rng):
     elif r < 0.22 and len(t["rows"]) > 1:
         t["rows"].insert(int(rng.integers(1, len(t["rows"]))), [])
         cfg["kind"] = "blank-line"
-    elif r < 0.29 and ld == "Pearson" and sum(len(x["rows"]) for x in tabs) > 1:
-        # two rows (of one table or of the two tables) carry the same ID: they remain two variants
-        cells = [(x, i) for x in tabs for i in range(len(x["rows"]))]
-        (ta, ia), (tb, ib) = [cells[i] for i in rng.choice(len(cells), size=2, replace=False)]
-        tb["rows"][ib][tb["header"].index(fields["id"])] = ta["rows"][ia][ta["header"].index(fields["id"])]
-        cfg["kind"] = "duplicate-id"
+    if cfg["kind"] in ("wellformed", "blank-line") and rng.random() < 0.3:
+        _duplicate_ids(cfg, rng)
     _avoid_threshold(cfg)
     return cfg
+
+
+def _duplicate_ids(cfg, rng):
+    """Rows that carry one ID remain several variants (a Variant is a row: CHROM/POS, not its ID): placeholder IDs
+    '.', the same ID on two chromosomes, at two positions of one chromosome, shared by a SNP row and an STR row.
+    Half of the time the rows concerned get small p-values (each is then an index or a member somewhere)."""
+    f = cfg["fields"]
+    cells = []
+    for key in ("stats_snp", "stats_str"):
+        t = cfg[key]
+        if not t:
+            continue
+        h = t["header"]
+        ic, ich, ip = h.index(f["id"]), h.index(f["chrom"]), h.index(f["p"])
+        for row in t["rows"]:
+            if len(row) == len(h):
+                cells.append((key, row, ic, ich, ip))
+    if len(cells) < 2:
+        return
+    want = str(rng.choice(["dot", "two-chroms", "two-positions", "snp-str", "dot", "two-chroms"]))
+    order = [cells[i] for i in rng.permutation(len(cells))]
+    pick = None
+    if want == "two-chroms":
+        pick = next(([a, b] for a in order for b in order if a is not b and a[1][a[3]] != b[1][b[3]]), None)
+    elif want == "two-positions":
+        pick = next(([a, b] for a in order for b in order if a is not b and a[1][a[3]] == b[1][b[3]]), None)
+    elif want == "snp-str":
+        pick = next(([a, b] for a in order for b in order if a[0] != b[0]), None)
+    if want == "dot" or pick is None:
+        if pick is None and want != "dot":
+            want = "any-two"
+        k = int(rng.integers(2, min(4, len(order)) + 1)) if want == "dot" else 2
+        pick = order[:k]
+    name = "." if want == "dot" else pick[0][1][pick[0][2]]
+    low = rng.random() < 0.5
+    for _, row, ic, _, ip in pick:
+        row[ic] = name
+        if low:
+            row[ip] = str(rng.choice(["0", "1e-300", "1e-10", "2e-5", "0.00005"]))
+    cfg["dup"] = want
 
 
 def _loaded_calls(cfg):
@@ -502,7 +577,7 @@ class Clump(Relation):
 
             def load(var, gts, log):
                 arr = load0(var, gts, log)
-                tags[id(arr)] = (var.varid, arr)
+                tags[id(arr)] = ([var.varid, var.chrom, int(var.pos)], arr)
                 return arr
 
             def compute(cand, idx, ld_type, log):
@@ -609,7 +684,8 @@ class Clump(Relation):
                 if a is None or b is None:
                     continue
                 qv = "None" if v is None else f"(Some (Qmake {L.z(int(v[0]))} {int(v[1])}%positive))"
-                table.append(f"({toks(a)}, {toks(b)}, {qv})")
+                sg = lambda x: f"({toks(x[0])}, {toks(x[1])}, {L.z(int(x[2]))})"
+                table.append(f"({sg(a)}, {sg(b)}, {qv})")
         if "ok" in obs:
             try:
                 def vrow(i, c, pos, pv, ty):
@@ -638,10 +714,13 @@ class Clump(Relation):
                "ld=" + cfg["ld"], cfg.get("kbclass", "kb:corpus"), "layout=" + cfg.get("layout", "fixed"),
                "p1>1" if float(cfg["p1"]) > 1 else "p1<=1"]
         out += self._window_classes(cfg, obs)
+        out += self._dup_classes(cfg, obs)
         if cfg["snp"]:
             out.append("snpfmt=" + cfg["snp"]["fmt"])
         if cfg["str"]:
             out.append("strfmt=" + cfg["str"].get("fmt", "vcf"))
+            if any(v["ref_n"] >= 126 for v in cfg["str"]["vars"]):
+                out.append("str-copy-number>=126(uint8-width)")
         out.append("via=" + cfg.get("via", "api"))
         if isinstance(obs, dict) and "ok" in obs:
             rows = obs["ok"]
@@ -657,6 +736,32 @@ class Clump(Relation):
             out.append(f"err:{obs.get('cls', obs['err'])}")
         elif isinstance(obs, dict) and "__timeout__" in obs:
             out.append("timeout")
+        return out
+
+    def _dup_classes(self, cfg, obs):
+        """duplicate IDs among the loaded rows (p <= p2), and whether each of the rows sharing an ID got clumped"""
+        f = cfg["fields"]
+        ids = []
+        for key in ("stats_snp", "stats_str"):
+            t = cfg[key]
+            if not t or f["id"] not in t["header"] or f["p"] not in t["header"]:
+                continue
+            ic, ip = t["header"].index(f["id"]), t["header"].index(f["p"])
+            for row in t["rows"]:
+                if not row:
+                    break
+                try:
+                    if len(row) > max(ic, ip) and float(row[ip]) <= float(cfg["p2"]):
+                        ids.append(row[ic])
+                except ValueError:
+                    pass
+        dup = {i for i in ids if ids.count(i) > 1}
+        if not dup:
+            return []
+        out = ["dup-id:" + cfg.get("dup", "corpus"), "dup-id-loaded"]
+        if isinstance(obs, dict) and "ok" in obs:
+            n = sum(1 for r in obs["ok"] if r[0] in dup)
+            out.append(f"dup-id-index-rows={min(n, 3)}")
         return out
 
     def _window_classes(self, cfg, obs):
@@ -684,10 +789,13 @@ class Clump(Relation):
             g, t = cfg[key], cfg[skey]
             if not g:
                 continue
-            idc = t["header"].index(cfg["fields"]["id"]) if cfg["fields"]["id"] in t["header"] else None
+            f = cfg["fields"]
+            cc = t["header"].index(f["chrom"]) if f["chrom"] in t["header"] else None
+            pc = t["header"].index(f["pos"]) if f["pos"] in t["header"] else None
             for j, v in enumerate(g["vars"]):
                 if len(g["vars"]) > 1:
-                    rows = [r for r in t["rows"] if idc is None or len(r) <= idc or r[idc] != v["id"]]
+                    rows = [r for r in t["rows"] if cc is None or pc is None or len(r) <= max(cc, pc)
+                            or (r[cc], r[pc]) != (v["chrom"], str(v["pos"]))]
                     yield dict(cfg, **{key: dict(g, vars=g["vars"][:j] + g["vars"][j + 1:]), skey: dict(t, rows=rows)})
             for j in range(len(t["rows"])):
                 yield dict(cfg, **{skey: dict(t, rows=t["rows"][:j] + t["rows"][j + 1:])})
@@ -744,11 +852,20 @@ def gen_pair(rng):
         b = [[int(x[0] + rng.integers(-1, 2)) % 20, int(rng.integers(1, 15))] for x in a]
         if rng.random() < 0.1:
             b = [[5, 5] for _ in range(n)]
+        if rng.random() < 0.12:
+            # width boundary: copy numbers whose dosage sum straddles 255|256 (the arrays are uint8; 254/255 = missing)
+            hi = [126, 127, 127, 128, 128, 129, 252, 253]
+            a = [[int(rng.choice(hi)), int(rng.choice(hi))] for _ in range(n)]
+            b = [[int(x[0] + rng.integers(-1, 2)) if x[0] < 253 else 253, int(rng.choice(hi))] for x in a]
     if rng.random() < 0.4:
         for i in range(n):
             if rng.random() < 0.2:
                 (a if rng.random() < 0.5 else b)[i] = [255, 255] if rng.random() < 0.6 else [int(rng.integers(0, 2)), int(rng.choice([254, 255]))]
     return {"cand": a, "idx": b, "ld": ld}
+
+
+def _wide(inp):
+    return any(254 > x[0] + 0 and x[0] < 254 and x[1] < 254 and x[0] + x[1] > 255 for x in inp["cand"] + inp["idx"])
 
 
 class ComputeLDRel(Relation):
@@ -842,6 +959,8 @@ class ComputeLDRel(Relation):
             out.append("no-double-het" if not any(x == (1, 1) for x in v) else "double-het")
         if len(v) < len(inp["cand"]):
             out.append("missing-calls")
+        if _wide(inp):
+            out.append("dosage-sum>255(uint8-width)")
         if isinstance(obs, dict) and "err" in obs:
             out.append(f"err:{obs.get('cls')}")
         if isinstance(obs, dict) and obs.get("float") in (0.0, 1.0):
@@ -870,19 +989,44 @@ class ComputeLDRel(Relation):
         return f"ComputeLD({inp['ld']}) r2 wrong or out of [0,1] ({tag})"
 
 
-RELATIONS = [Clump(), ComputeLDRel()]
+class TVClump(Clump):
+    """The same generated clumpstr runs, with the clumping loop evaluated from the MiniPy syntax regenerated from the
+    current source (GetNextIndexVariant, QueryWindow, RemoveClump and the `while indexvar is not None` loop of clumpstr;
+    LoadVariant / ComputeLD = the model's genotype lookup and r2 oracle, int / int in float64 arithmetic): validates the
+    translator and the interpreter against the real code.  holds is checked by the clump relation."""
+    name = "tv_clump"
+    coq_lib = "HVG"
+    coq_module = "TVM_C17"
+    coq_check = "check_tv_clump"
+    coq_case_type = "C17_Check.ccase"
+    coq_model = "tv_model_clump"
+    coq_imports = ["PearsonQ", "C17_Model", "C17_Check"]
+    budget = {"quick": 160, "thorough": 3000}
+
+    def exhaustive(self, tier):
+        return super().exhaustive(tier)[::7]
+
+    def signature(self, cfg, obs):
+        return "tv_" + super().signature(cfg, obs)
+
+
+RELATIONS = [Clump(), ComputeLDRel(), TVClump()]
 
 LEVEL_TEXT = (
     "Coq theorems over all summary-statistic tables, thresholds, window predicates and r^2 oracles for a Gallina model of "
-    "clump.py's main loop (termination with fuel = number of variants, greedy characterisation of every clump, "
-    "disjointness by row and by ID), composed into a theorem about the model of clumpstr as a whole with the Pearson "
+    "clump.py's main loop (termination with fuel = number of variants, greedy characterisation of every clump on rows "
+    "- two rows with one ID are two variants -, disjointness by row and by ID, soundness of the row-level checker of "
+    ".clump files modulo (ID, CHROM, POS)), composed into a theorem about the model of clumpstr as a whole with the Pearson "
     "oracle (tables loaded with p <= p2, genotype lookup, r^2 test, greedy clumping of the loaded statistics), "
     "over all dosage vectors for Pearson r^2 (in [0,1], Cauchy-Schwarz over Q) and over all 3x3 genotype tables for the "
     "exact-LD formulas (the no-double-heterozygote frequency is a root of the cubic and gives the haplotype r^2; "
     "r^2(f00) in [0,1] on the admissible interval; the cubic changes sign on it); the model is tied to /repo on every run "
     "by evaluating inside Coq model-vs-implementation agreement (window test in the code's float64 arithmetic, all six "
     "columns of every .clump row) and the property's finite checker (window as the rational test |dpos|/1000 < kb) on "
-    "generated clumpstr runs and ComputeLD calls."
+    "generated clumpstr runs and ComputeLD calls. The pure-Python kernel of clumping (GetNextIndexVariant, QueryWindow, "
+    "RemoveClump and the while loop of clumpstr) is regenerated from the current source on every run and proved equal to "
+    "the hand-written model for all tables, thresholds, roundings of abs(dpos)/1000 and LoadVariant / ComputeLD functions "
+    "(coq/translated/TV_C17.v); the greedy theorem is restated about the translated loop."
 )
 LEVEL_NOTE = (
     "Partial: (1) the theorems hold for every window predicate; that the code's float64 test abs(dpos)/1000 < kb "
@@ -893,6 +1037,9 @@ LEVEL_NOTE = (
     "readings of the user's kb (the decimal typed and the float64 it parses to) and non-membership where it is within "
     "under neither; where they differ (distance equal to the decimal typed while the float64 lies above it, e.g. "
     "--clump-kb 0.1 and 100 bp, which the code excludes) it demands nothing. "
+    "In the translation validation floats are exact rationals with exact comparison (nan/inf p-values are not generated) "
+    "and the float64 quotient abs(dpos)/1000 is an arbitrary function fdiv (nothing is assumed about its rounding); "
+    "Variant identity is the row index carried as an extra component (rows told apart by their keys). "
     "(2) C17_clumpstr_is_greedy composes loading, genotype lookup and the Pearson test with the greedy theorem; header "
     "lookup by name and the Exact-mode oracle (recorded values) are outside it. "
     "(3) ComputeExactLD's floating-point cubic solver and its choice among several admissible roots are not "
@@ -908,4 +1055,4 @@ LEVEL_NOTE = (
     "STR genotypes given as PGEN need the un-indexed-read fix (fixes/C07_unindexed_read.patch) to be read at all. "
     "The double-root branch of ComputeExactLD needs fixes/C17_exact_double_root.patch (witnesses corpus/C17/exact_double_root_*)."
 )
-TECHNIQUE = "Coq proofs (fuel-based loop invariants, Cauchy-Schwarz over Z/Q, field identities) + vm_compute-evaluated correspondence"
+TECHNIQUE = "Coq proofs (fuel-based loop invariants, Cauchy-Schwarz over Z/Q, field identities) + translation validation of the clumping kernel (source -> MiniPy -> proved equal to the model) + vm_compute-evaluated correspondence"
